@@ -267,9 +267,11 @@ class Facts(object):
             self._callers = m
         return self._callers
 
-    def cone(self, roots, follow_closures=True, stop=None):
+    def cone(self, roots, follow_closures=True, stop=None, foreign_traits=True):
         """Set of in-crate bodies reachable from the root bodies through static
-        call edges; closures created in a reached body are reached."""
+        call edges; closures created in a reached body are reached.
+        foreign_traits=False: an unresolved call of a method of a trait that is not the crate's own (Iterator, IntoIterator,
+        Clone, Debug, ..) is not taken to reach every in-crate impl of that trait - only resolved calls are followed for those."""
         seen = {}
         work = list(roots)
         while work:
@@ -283,7 +285,10 @@ class Facts(object):
                 work.extend(b.closures)
             for bb, t in b.calls():
                 c = Callee(t["func"])
-                work.extend(self.target_bodies(c))
+                if not foreign_traits and c.container == "trait" and c.trait and not c.trait.startswith(self.crate + "::"):
+                    work.extend(self.target_bodies(c, precise=True))
+                else:
+                    work.extend(self.target_bodies(c))
             # function items referenced as values (e.g. `Conflict::add` passed to fold)
             for ref in fn_refs(b):
                 if ref in self.bodies:
